@@ -199,4 +199,50 @@ theorem remote_runClearCache_ok : Gen.Remote.runClearCache = [
     "| cachePath := filepath.Join(e.TempDir.Remote, \"remote\")",
     "| return os.RemoveAll(cachePath)"] := by rfl
 
+/-! ## Chains (`Remote.Chain`): the cache comes before the context, and the deadline is shared -/
+
+/-- inside `readRemoteNodeContent`, the statements that mention `ctx`, make or read the cache node,
+or return the cached bytes, in source order: the cache is read and — where no network is needed
+(`--offline`, unexpired cache without `--download`) — returned **before `ctx` is looked at for the
+first time**, and the only use of `ctx` is handing it to `node.ReadContext`, whose failure falls
+back to the cached bytes.  A node whose read starts after the shared deadline therefore behaves
+like one whose fetch timed out (`Chain.net2`); an early `ctx.Err()` return would not. -/
+theorem remote_cacheBeforeCtx_ok : Gen.Remote.cacheBeforeCtx = [
+    "cache := NewCacheNode(node, r.tempDir)",
+    "cachedBytes, err := cache.Read()",
+    "| | return cachedBytes, nil",
+    "| | return cachedBytes, nil",
+    "downloadedBytes, err := node.ReadContext(ctx)",
+    "| | return cachedBytes, nil"] := by rfl
+
+/-- every use of `ctx` on the way from `Reader.Read` to the HTTP requests: the context `Read` was
+given is handed down unchanged — never re-assigned, never wrapped — through `include` (to
+`readNode` for the node itself and to the recursive `include` for each included node), `readNode`,
+`readNodeContent`, `readRemoteNodeContent`, `ReadContext`, `RemoteExists` (`Chain.spent`: node 2
+reads under node 1's deadline) -/
+theorem remote_ctxFlow_ok : Gen.Remote.ctxFlow = [
+    "Reader.Read: r.include(ctx, node)",
+    "Reader.include: r.readNode(ctx, node)",
+    "Reader.include: r.include(ctx, includeNode)",
+    "Reader.readNode: r.readNodeContent(ctx, node)",
+    "Reader.readNodeContent: r.readRemoteNodeContent(ctx, node)",
+    "Reader.readRemoteNodeContent: node.ReadContext(ctx)",
+    "HTTPNode.ReadContext: RemoteExists(ctx, node.URL)",
+    "HTTPNode.ReadContext: req.WithContext(ctx)",
+    "HTTPNode.ReadContext: ctx.Err()",
+    "RemoteExists: http.NewRequestWithContext(ctx, \"HEAD\", u.String(), nil)",
+    "RemoteExists: ctx.Err()",
+    "RemoteExists: ctx.Err()"] := by rfl
+
+/-- every `context.…` call in `setup.go` and in package `taskfile`: the one deadline is made in
+`readTaskfile`, in front of `reader.Read` (`remote_readTaskfile_ok`); nothing below it derives a
+fresh context or timeout per node (the two `context.Background()` are the context-free `Read`
+methods of the git and http nodes, which the reader does not use for remote nodes —
+`remote_readNodeContent_ok`) -/
+theorem remote_ctxMakers_ok : Gen.Remote.ctxMakers = [
+    "setup.go Executor.readTaskfile: context.WithTimeout(context.Background(), e.Timeout)",
+    "setup.go Executor.readTaskfile: context.Background()",
+    "taskfile/node_git.go GitNode.Read: context.Background()",
+    "taskfile/node_http.go HTTPNode.Read: context.Background()"] := by rfl
+
 end TaskModel.Remote
